@@ -414,7 +414,7 @@ def run(ctx):
     # ---- end-to-end fits
     from harness.wb_common import real_module
     cfgs = config_stream(rng, ctx.thorough)
-    budget = 420 if ctx.thorough else 60
+    budget = 300 if ctx.thorough else 60
     counts = dict(chol=0, full=0, dtc=0, dtc_exact=0, dtc_normal_eq=0, normalize=0, exp=0, refused=0, fits=0, retained_rank_equals_m=0)
     cases, meta = [], []
     dist = {}
